@@ -75,7 +75,9 @@ REQUIRED = dict(
              'class:DirectImageModel', 'class:NestleOptimizer', 'class:MultiNestOptimizer', 'class:SNRInstrument',
              'class:InstrumentFile', 'class:ObservedSpectrum', 'class:AbsorptionContribution', 'class:CIAContribution',
              'class:RayleighContribution', 'class:SimpleCloudsContribution', 'class:FlatMieContribution',
-             'class:LeeMieContribution', 'class:HydrogenIon', 'cli:binning-manual', 'cli:instrument-snr', 'cli:native'])
+             'class:LeeMieContribution', 'class:HydrogenIon', 'cli:binning-manual', 'cli:instrument-snr', 'cli:native',
+             'cli:binning-key:wavelength_grid', 'cli:binning-key:log_wavelength_grid', 'cli:binning-key:log_wavenumber_grid',
+             'cli:binning-key:wavenumber_grid'])
 
 _S = {}     # per-process state: docs, source scan, taps
 
@@ -1052,9 +1054,27 @@ def wl_cli(ctx, rng):
     if mode in ('binning-manual', 'instrument-snr'):
         lo, hi, npt = float(wn[0] * 1.02), float(wn[-1] * 0.98), int(rng.integers(2, 6))
         accurate = bool(rng.random() < 0.5)
+        # the four documented ways of writing a manual grid: "start, end, number of points", equally spaced in wavenumber,
+        # in wavelength (micron), or in the logarithm of either; the expected centres are written out here
+        kk = ctx.case['index'] + ctx.shard            # cycled with the case, so that the few program runs of the quick tier cover all four
+        gkey = ['wavenumber_grid', 'wavelength_grid', 'log_wavenumber_grid', 'log_wavelength_grid'][(kk // 3 * 2 + (kk % 3 - 1)) % 4]
+        if mode == 'binning-manual' and npt == 2:
+            npt = int(rng.integers(3, 7))            # with two points every spacing gives the same grid
+        if gkey == 'wavenumber_grid':
+            a, b = lo, hi
+            grid = np.linspace(a, b, npt)
+        elif gkey == 'log_wavenumber_grid':
+            a, b = lo, hi
+            grid = 10 ** np.linspace(np.log10(a), np.log10(b), npt)
+        elif gkey == 'wavelength_grid':
+            a, b = 1e4 / hi, 1e4 / lo
+            grid = np.sort(1e4 / np.linspace(a, b, npt))
+        else:
+            a, b = 1e4 / hi, 1e4 / lo
+            grid = np.sort(1e4 / 10 ** np.linspace(np.log10(a), np.log10(b), npt))
+        ctx.observe('cli:binning-key:' + gkey)
         sections.append(L.Section('Binning', 'bin_type', 'manual', None,
-                                  [L.e_floatlist(rng, 'wavenumber_grid', [lo, hi, npt]), L.e_bool(rng, 'accurate', accurate)]))
-        grid = np.linspace(lo, hi, npt)
+                                  [L.e_floatlist(rng, gkey, [a, b, npt]), L.e_bool(rng, 'accurate', accurate)]))
         binner = (FluxBinner if accurate else SimpleBinner)(grid)
     if mode == 'instrument-snr':
         snr = float(rng.uniform(5, 50))
@@ -1081,7 +1101,7 @@ def wl_cli(ctx, rng):
         want_wn, want = grid, binner.bindown(native_wn, native)[1]
         want_wlw = wnwidth_to_wlwidth(grid, compute_bin_edges(grid)[1])
     txt = np.loadtxt(spc, ndmin=2)
-    ctx.close('cli-S=library', txt[:, 0], 1e4 / want_wn, 1e-15, what='wavelength')
+    ctx.close('cli-S=library', txt[:, 0], 1e4 / want_wn, 1e-15 if binner is None else 1e-12, what='wavelength')
     ctx.close('cli-S=library', txt[:, 1], want, 1e-13, what='spectrum', mode=mode)
     if snr is not None:
         noise = np.ones(want.shape) * (want.max() - want.min()) / snr
